@@ -1026,3 +1026,28 @@ def gsqlx_case(draw, dialect="sqlite", populations=3, max_len=None, **features):
             pop[t] = rows
         pops.append(pop)
     return {"dialect": dialect, "sql": sql, "pops": pops, "constructs": sorted(g.used), "origin": "gsqlx"}
+
+
+# --------------------------------------------------------------------------- harness hygiene
+
+
+def tame_tqdm():
+    """sqlfluff creates a tqdm bar per lint loop.  tqdm starts a monitor thread and guards instance creation with a
+    multiprocessing lock; the runner forks its shards after the replay tier has already linted in the parent, and a
+    fork taken while the monitor thread holds the lock leaves a child blocked for ever while it holds the shared
+    semaphore (observed: all shards and the parent asleep in sem_wait).  No monitor thread and a thread-local lock
+    remove the race; progress bars are disabled anyway.  Call before the first lint (idempotent)."""
+    try:
+        import threading
+
+        import tqdm
+    except ImportError:
+        return
+    if getattr(tqdm.tqdm, "_verif_tamed", False):
+        return
+    tqdm.tqdm.monitor_interval = 0
+    try:
+        tqdm.tqdm.set_lock(threading.RLock())
+    except Exception:
+        pass
+    tqdm.tqdm._verif_tamed = True
